@@ -236,6 +236,43 @@ def _loads(node):
     return {n.id for n in ast.walk(node) if isinstance(n, ast.Name) and isinstance(n.ctx, (ast.Load, ast.Del))}
 
 
+def _free_loads(n):
+    """names a nested function / lambda reads from the enclosing scope (its own parameters and plain local
+    bindings are not free)"""
+    if isinstance(n, ast.ClassDef):
+        return _loads(n)
+    a = n.args
+    own = {x.arg for x in a.posonlyargs + a.args + a.kwonlyargs}
+    if a.vararg:
+        own.add(a.vararg.arg)
+    if a.kwarg:
+        own.add(a.kwarg.arg)
+    body = n.body if isinstance(n.body, list) else [n.body]
+    nonlocal_ = set()
+    for st in body:
+        for m in ast.walk(st):
+            if isinstance(m, (ast.Global, ast.Nonlocal)):
+                nonlocal_.update(m.names)
+            if isinstance(m, ast.Name) and isinstance(m.ctx, ast.Store):
+                own.add(m.id)
+    own -= nonlocal_
+    out = set()
+    for st in body:
+        out |= _loads(st)
+    return out - own
+
+
+def _kills(sn, x):
+    """statement re-binds the plain name x without reading it (reads were checked before)"""
+    if isinstance(sn, ast.Assign):
+        return any(isinstance(t, ast.Name) and t.id == x for t in sn.targets)
+    if isinstance(sn, ast.AnnAssign):
+        return isinstance(sn.target, ast.Name) and sn.target.id == x and sn.value is not None
+    if isinstance(sn, (ast.For, ast.AsyncFor)):
+        return False  # the target is only bound when the loop body runs
+    return False
+
+
 def _header_parts(sn):
     if isinstance(sn, (ast.If, ast.While)):
         return [sn.test]
@@ -275,7 +312,7 @@ def lost_update(ctx, repo, scope=("",), rule="LOST-UPD", _self=False):
                 if isinstance(n, (ast.Global, ast.Nonlocal)):
                     skip.update(n.names)
                 if n is not fn and isinstance(n, (ast.FunctionDef, ast.AsyncFunctionDef, ast.Lambda, ast.ClassDef)):
-                    skip |= _loads(n)
+                    skip |= _free_loads(n)
             g = None
             for st in cands:
                 x = st.targets[0].id
@@ -287,10 +324,23 @@ def lost_update(ctx, repo, scope=("",), rule="LOST-UPD", _self=False):
                 if i is None:
                     continue
                 total += 1
-                reach = set()
-                for s in g.succ[i]:
-                    reach |= g.reachable_nodes(s)
-                used = any(g.stmt[j] is not None and any(x in _loads(p) for p in _header_parts(g.stmt[j])) for j in reach)
+                # liveness: is x read on some path before it is re-bound?
+                used = False
+                seen_n = set()
+                stack = list(g.succ[i])
+                while stack and not used:
+                    j = stack.pop()
+                    if j in seen_n:
+                        continue
+                    seen_n.add(j)
+                    sj = g.stmt[j]
+                    if sj is not None:
+                        if any(x in _loads(p) for p in _header_parts(sj)):
+                            used = True
+                            break
+                        if _kills(sj, x):
+                            continue
+                    stack.extend(g.succ[j])
                 if not used:
                     key = (rel, q, norm(st))
                     if key in LOST_UPDATE_AUDIT:
